@@ -1,4 +1,5 @@
 import SurfProofs.Lemmas.Sgr
+import SurfProofs.Lemmas.SgrColorItems
 /-!
 # C06 — the library reads back its own SGR output and applies it with SGR semantics
 
@@ -8,7 +9,7 @@ code by correspondence on every run.  The tokeniser that frames `ESC [ … m` an
 chunking is the subject of C03; here the payload is what is proved.
 -/
 namespace SurfProofs.C06
-open SurfModel.Vt SurfModel.Sgr SurfProofs.Lemmas.Vt SurfProofs.Lemmas.Sgr
+open SurfModel.Vt SurfModel.Sgr SurfProofs.Lemmas.Vt SurfProofs.Lemmas.Sgr SurfProofs.Lemmas.SgrSem
 
 /-- the record the decoder should produce for a face modification the encoder was given -/
 def toFMod (m : FaceModify) : FMod :=
@@ -95,6 +96,74 @@ theorem C06_roundtrip_encoded (kitty : Bool) (m : FaceModify) (h : ModOk m)
     sgrFace (sgrPayload (encode ⟨.trueColor, kitty⟩ (.faceModify m))) = toFMod m := by
   rw [payload_faceModify ⟨.trueColor, kitty⟩ m hne]
   exact C06_roundtrip_modify m h hne
+
+/-! ## SGR semantics of the decoder and of `FaceModify::apply` -/
+
+/-- A well-formed SGR parameter: every parameter the face-modification record can express, in every
+spelling the decoder's grammar admits (`;` and `:` colour forms, `4`, `4:k`, `21`, `24`, the empty
+parameter, named and bright colours, palette indices). -/
+inductive Item where
+  | simple (s : Simple)
+  | rgbSemi (role : Role) (r g b : Nat)
+  | idxSemi (role : Role) (n : Nat)
+  | rgbColon4 (role : Role) (r g b : Nat)
+  | rgbColon3 (role : Role) (r g b : Nat)
+  | idxColon (role : Role) (n : Nat)
+  | named (bg bright : Bool) (k : Nat)
+
+def Item.spec : Item → ItemSpec
+  | .simple s => s.spec
+  | .rgbSemi role r g b => SurfProofs.Lemmas.SgrSem.rgbSemi role r g b
+  | .idxSemi role n => SurfProofs.Lemmas.SgrSem.idxSemi role n
+  | .rgbColon4 role r g b => SurfProofs.Lemmas.SgrSem.rgbColon4 role r g b
+  | .rgbColon3 role r g b => SurfProofs.Lemmas.SgrSem.rgbColon3 role r g b
+  | .idxColon role n => SurfProofs.Lemmas.SgrSem.idxColon role n
+  | .named bg bright k => SurfProofs.Lemmas.SgrSem.named bg bright k
+
+/-- parameter ranges: 8-bit colour components and palette indices, underline style 0..5, colour
+number 0..7 -/
+def Item.ok : Item → Prop
+  | .simple s => s.ok
+  | .rgbSemi _ r g b | .rgbColon4 _ r g b | .rgbColon3 _ r g b => r ≤ 255 ∧ g ≤ 255 ∧ b ≤ 255
+  | .idxSemi _ n | .idxColon _ n => n ≤ 255
+  | .named _ _ k => k < 8
+
+theorem Item.spec_ok (it : Item) (h : it.ok) : ItemOk it.spec := by
+  cases it with
+  | simple s => exact s.spec_ok h
+  | rgbSemi role r g b => exact rgbSemi_ok role r g b h.1 h.2.1 h.2.2
+  | idxSemi role n => exact idxSemi_ok role n h
+  | rgbColon4 role r g b => exact rgbColon4_ok role r g b h.1 h.2.1 h.2.2
+  | rgbColon3 role r g b => exact rgbColon3_ok role r g b h.1 h.2.1 h.2.2
+  | idxColon role n => exact idxColon_ok role n h
+  | named bg bright k => exact named_ok bg bright k h
+
+/-- the parameter bytes of an SGR sequence made of the given items (between `ESC [` and `m`) -/
+def sgrBytes (items : List Item) : List Nat := joinSemi (items.flatMap fun it => it.spec.chunks)
+
+/-- **C06, SGR semantics.** For every non-empty sequence of well-formed SGR parameters and every
+face, the face obtained by `FaceModify::apply` from what `sgr_face` decodes is the face the reference
+SGR machine computes: each attribute and colour set or cleared independently, later parameters
+overriding earlier ones, reset restoring the default face (palette indices resolved through the
+decoder's palette, which `tables_xterm` pins to xterm's; the underline colour, which a face cannot
+hold, is ignored on both sides). -/
+theorem C06_apply_sgr (items : List Item) (hok : ∀ it ∈ items, it.ok) (hne : items ≠ []) (f : DFace) :
+    refApply (sgrBytes items) f = some (attrOfDFace (apply (sgrFace (sgrBytes items)) f)) := by
+  have h := items_agree (items.map Item.spec)
+    (by intro s hs; obtain ⟨it, hit, rfl⟩ := List.mem_map.mp hs; exact it.spec_ok (hok it hit))
+    (by simpa using hne) f
+  simpa [sgrBytes, List.flatMap_map, view] using h
+
+/-- the decoder's colour tables are xterm's -/
+theorem C06_tables :
+    SurfModel.Generated.cube6 = [0, 95, 135, 175, 215, 255] ∧
+    SurfModel.Generated.greys24 = (List.range 24).map (fun i => 8 + 10 * i) ∧
+    SurfModel.Generated.colors16.length = 16 ∧
+    (∀ n : Fin 256, (palette n.val).isSome = true) :=
+  ⟨tables_xterm.1, tables_xterm.2.1, tables_xterm.2.2, palette_total⟩
+
+example : (∀ it ∈ [Item.simple .bold, .rgbColon4 .fg 1 2 3, .named true true 7, .simple (.ulStyle 3)], it.ok) := by
+  intro it hit; simp at hit; rcases hit with rfl | rfl | rfl | rfl <;> simp [Item.ok, Simple.ok]
 
 /-! Non-vacuity -/
 example : ModOk ⟨true, some ⟨1, 2, 3, 255, 0, 0⟩, none, some 3, none, some false, none, none, some true⟩ := by
